@@ -184,7 +184,11 @@ def factor_graph_lp_model(cg: ComputationsFactorGraph,
     agents = list(agents)
     agents_names = [a.name for a in agents]
 
-    fixed_dist = Distribution(must_host)
+    try:
+        fixed_dist = Distribution(must_host)
+    except ValueError as e:
+        # A computation has a hosting cost of 0 (must host) on several agents
+        raise ImpossibleDistributionException(str(e))
 
     # Only keep computations for which we actually need to find an agent.
     vars_to_host = [v.name for v in variables
